@@ -1198,8 +1198,8 @@ func (e *Engine) binop(st *State, op token.Token, x, y Val, t types.Type, xT, yT
 					if o, ok := e.snapOrigin[p.Cell]; ok {
 						return o
 					}
-					if c := e.ptrCell[p.Name]; c == p.Cell && p.Name != "" {
-						return p.Name
+					if p.Name != "" {
+						return p.Name // names are identities: parameters, allocations (name#id), merged objects (a|b)
 					}
 					return fmt.Sprintf("cell/%d", p.Cell.id)
 				}
